@@ -244,9 +244,9 @@ func genHistory(t *rapid.T, col *collector, ho histOpts) histCase {
 				if ho.updOptions {
 					switch rapid.IntRange(0, 5).Draw(t, "updopt") {
 					case 0:
-						ec.UpdOpt = boolp(true)
+						ec.UpdOpt = vhBoolp(true)
 					case 1:
-						ec.UpdOpt = boolp(false)
+						ec.UpdOpt = vhBoolp(false)
 					}
 				}
 				ex.Calls = append(ex.Calls, ec)
@@ -409,13 +409,13 @@ func runHistory(c histCase, hooks histHooks) error {
 		if c.CRLFBefore > 0 && pi == c.CRLFBefore-1 {
 			clean := true
 			for _, f := range m.files {
-				if strings.Contains(readFile(f), "\r") {
+				if strings.Contains(vhReadFile(f), "\r") {
 					clean = false
 				}
 			}
 			if clean {
 				for _, f := range m.files {
-					if data := readFile(f); data != "" {
+					if data := vhReadFile(f); data != "" {
 						os.WriteFile(f, []byte(strings.ReplaceAll(data, "\n", "\r\n")), 0o644)
 						crlf = true
 					}
@@ -459,7 +459,7 @@ func runHistory(c histCase, hooks histHooks) error {
 				}
 				errs, logs := fts[st.Exec].drain()
 				if len(errs) != 0 {
-					return fmt.Errorf("process %d %s: snaps.%s reported errors %q", pi, name, ec.Skip, clipAll(errs))
+					return fmt.Errorf("process %d %s: snaps.%s reported errors %q", pi, name, ec.Skip, vhClipAll(errs))
 				}
 				if hooks.afterSkip != nil {
 					hooks.afterSkip(pi, name, logs)
@@ -506,14 +506,14 @@ func runHistory(c histCase, hooks histHooks) error {
 			}
 			if got != want {
 				return fmt.Errorf("process %d (mode %+v) %s call #%d on %s must address slot %q: model predicts %s, observed %s (errors=%q logs=%q); slot held %q, call value %q",
-					pi, pr.Mode, name, k, filepath.Base(m.files[ci]), id, want, got, clipAll(r.Errors), clipAll(r.Logs), clip(prevKey), clip(newKey))
+					pi, pr.Mode, name, k, filepath.Base(m.files[ci]), id, want, got, vhClipAll(r.Errors), vhClipAll(r.Logs), vhClip(prevKey), vhClip(newKey))
 			}
 			// files: the addressed file changes per outcome, every other file not at all
 			for fi := range m.files {
-				data := lf(readFile(m.files[fi]))
+				data := lf(vhReadFile(m.files[fi]))
 				es, perr := refParse(data)
 				if perr != nil {
-					return fmt.Errorf("process %d %s call #%d (%s): file %s is no longer well formed: %v; content %q", pi, name, k, got, filepath.Base(m.files[fi]), perr, clip(data))
+					return fmt.Errorf("process %d %s call #%d (%s): file %s is no longer well formed: %v; content %q", pi, name, k, got, filepath.Base(m.files[fi]), perr, vhClip(data))
 				}
 				old := m.order[fi]
 				if fi != ci || got == oPassed || got == oFailed {
@@ -550,7 +550,7 @@ func runHistory(c histCase, hooks histHooks) error {
 							continue
 						}
 						if es[i].Body != old[i].Body {
-							return fmt.Errorf("process %d %s call #%d: update of %q changed entry %q: %q -> %q", pi, name, k, id, es[i].ID, clip(string(old[i].Body)), clip(string(es[i].Body)))
+							return fmt.Errorf("process %d %s call #%d: update of %q changed entry %q: %q -> %q", pi, name, k, id, es[i].ID, vhClip(string(old[i].Body)), vhClip(string(es[i].Body)))
 						}
 					}
 				}
@@ -566,7 +566,7 @@ func runHistory(c histCase, hooks histHooks) error {
 			}
 			// afterProc may run Clean: refresh the model's view of the files
 			for fi := range m.files {
-				es, perr := refParse(lf(readFile(m.files[fi])))
+				es, perr := refParse(lf(vhReadFile(m.files[fi])))
 				if perr != nil {
 					return fmt.Errorf("process %d: after end-of-process hook file %s is not well formed: %v", pi, filepath.Base(m.files[fi]), perr)
 				}
@@ -589,23 +589,23 @@ func checkStoredBody(c Call, body string) error {
 	switch c.API {
 	case "snap":
 		if want := refEscape(c.snapText()); body != want {
-			return fmt.Errorf("stored body %q, want the escaped formatted value %q", clip(body), clip(want))
+			return fmt.Errorf("stored body %q, want the escaped formatted value %q", vhClip(body), vhClip(want))
 		}
 	case "yaml":
 		if len(c.Matchers) == 0 && c.Form != "value" {
 			if want := refEscape(string(c.Doc)); body != want {
-				return fmt.Errorf("stored body %q, want the escaped document %q", clip(body), clip(want))
+				return fmt.Errorf("stored body %q, want the escaped document %q", vhClip(body), vhClip(want))
 			}
 		}
 	case "json":
 		if len(c.Matchers) == 0 {
 			got, err := parseJNode(body)
 			if err != nil {
-				return fmt.Errorf("stored body is not valid JSON: %v: %q", err, clip(body))
+				return fmt.Errorf("stored body is not valid JSON: %v: %q", err, vhClip(body))
 			}
 			want, _ := parseJNode(string(c.Doc))
 			if got.Canon() != want.Canon() {
-				return fmt.Errorf("stored JSON %q is not the value of %q", clip(body), clip(string(c.Doc)))
+				return fmt.Errorf("stored JSON %q is not the value of %q", vhClip(body), vhClip(string(c.Doc)))
 			}
 		}
 	}
@@ -720,7 +720,7 @@ func classifyHistory(c histCase) ([]string, bool) {
 	if len(c.Cfgs) > 1 {
 		cls = append(cls, "two_files")
 	}
-	cls = uniq(cls)
+	cls = vhUniq(cls)
 	nt := len(c.Tests) >= 2 && len(cls) > 0
 	return cls, nt
 }
